@@ -46,8 +46,19 @@ def sumsq_exact(row):
 
 
 def call_span(a, lb, ub):
-    out = h.span(np.array(a, dtype=float), lb, ub)
-    return np.asarray(out)
+    arr = np.array(a, dtype=float)
+    out = np.asarray(h.span(arr, lb, ub))
+    if arr.size and bool(np.all((arr == 0.0) | (arr == 1.0))):
+        # a corner of the unit box written with integers or booleans (np.ones(shape, dtype=int)) is the same position: when its image
+        # differs from the float one, the oracle judges the integer one
+        for dt in (int, bool):
+            try:
+                alt = np.asarray(h.span(arr.astype(dt), lb, ub))
+            except Exception:  # noqa: BLE001
+                continue
+            if alt.shape != out.shape or not np.array_equal(np.asarray(alt, dtype=float), np.asarray(out, dtype=float), equal_nan=True):
+                return alt
+    return out
 
 
 def classify(kind, j, a, lb, ub, got):
